@@ -59,7 +59,7 @@ func main() {
 	}
 	c := &runCtx{prop: *prop, tier: *tier, seed: *seed, rep: vh.NewReport(*prop, "conc", *tier, *seed, *shard), outDir: *outDir, cur: *cur, scratch: scratch}
 	start := time.Now()
-	n := map[string][2]int{"C12": {96, 2400}, "C18": {160, 10000}}[*prop]
+	n := map[string][2]int{"C12": {96, 2400}, "C18": {160, 10000}, "C11": {48, 1200}}[*prop]
 	cnt := n[0]
 	if *tier == "thorough" {
 		cnt = n[1]
@@ -91,6 +91,8 @@ func main() {
 			runC12(c, i, r)
 		case "C18":
 			runC18(c, i, r)
+		case "C11":
+			runC11(c, i, r)
 		default:
 			fmt.Println("unknown property for vconc:", *prop)
 			os.Exit(2)
